@@ -513,22 +513,46 @@ def run(run):
         env = {}
         t = sy.term(fn["body"], env)
         site = F.loc(fn["body"])
-        sets = [(n, c) for n, c in T.paths_to(fn["body"], lambda x: T.is_call(x, "set_node_value"))]
-        ok = False
-        for n, conds in sets:
-            node = sy.ev(n["a"][1], env)
-            # seeded at the TARGET node of the ExternCallStub edge (the return site)
-            seeded = is_call(node, "target")
-            guards = [cd for cd in conds if cd[0] in ("letelse",)]
-            texts = " ".join(T.show_pat(cd[1]["p"]) for cd in guards)
-            in_map = any(is_call(sy.ev(cd[1]["i"], env), "get") and any(isinstance(y, tuple) and y and y[0] == "field" and y[2].endswith("Call.target") for y in S.subterms(sy.ev(cd[1]["i"], env))) for cd in guards if "i" in cd[1])
-            ok = seeded and "ExternCallStub" in texts and "Call" in texts and in_map
-        run.check("R8", "check_cwe|one-computation-per-source-call", ok, "a taint computation must be started for every ExternCallStub edge whose call target is a configured symbol, seeded at the node the call returns to", site)
+        from .lib import bindsrc as B
+        from .lib import iterctx as IC
+        from .lib import sortprint as SP2
+        roots = B.bodies(F, fn)
+        sets = [x for x in T.walk_fn(F, fn) if T.is_call(x, "set_node_value")]
+        key = "check_cwe|one-computation-per-source-call"
+        msg = "a taint computation must be started for every ExternCallStub edge whose call target is a configured symbol, seeded at the node the call returns to"
+        if len(sets) != 1:
+            run.undecided("R8", key, "expected one set_node_value site, found %d" % len(sets), site)
+        else:
+            n = sets[0]
+            srcs = B.sources(F, roots, n["a"][1])
+            seeded = any(T.is_call(y, "target") for src, how in srcs for y in B.walk_with_closures(F, src))
+            from_source = any(T.is_call(y, "source") for src, how in srcs for y in B.walk_with_closures(F, src))
+            ctx = IC.contexts(F, fn, n)
+            over_edges = any(T.is_call(y, ("edge_references", "edge_indices", "raw_edges")) for e_ in ctx for src, how in B.sources(F, roots, e_) for y in B.walk_with_closures(F, src))
+            # the three conditions, wherever they are written (let-else chain, nested match, filter_map closure)
+            pats = [q for b_ in [fn] + F.closures(fn) for pat, scrut, owner in SL.fn_patterns(F, b_, closures=False) for q in [pat]]
+            stub = any(SL.variant_subpatterns(p_, "graph::Edge", "ExternCallStub") and list(SL.variant_subpatterns(p_, "graph::Edge", "ExternCallStub")) for p_ in pats)
+            direct = any(list(SL.variant_subpatterns(p_, "jmp::Jmp", "Call")) for p_ in pats)
+            tids = set()
+            for b_ in [fn]:
+                tids |= {bb[0] for bb in SL.slot_bindings(F, b_, "jmp::Jmp", "Call", "target")}
+            member = any(T.is_call(y, ("get", "contains_key", "get_key_value")) and len(y.get("a", [])) == 2 and T.root_var_id(y["a"][1]) in tids for y in T.walk_fn(F, fn))
+            missing = [w for w, ok_ in (("edges of the graph are enumerated", over_edges), ("Edge::ExternCallStub is required", stub), ("a direct call (Jmp::Call) is required", direct), ("the call target is looked up in the symbol map", member)) if not ok_]
+            if from_source and not seeded:
+                run.violated("R8", key, msg + " -- the computation is seeded at the SOURCE node of the edge", F.loc(n))
+            elif not seeded:
+                run.undecided("R8", key, "the seeded node is not traced to edge.target()", F.loc(n))
+            elif missing:
+                run.violated("R8", key, msg + " -- missing: %s" % missing, F.loc(n))
+            else:
+                run.holds("R8", key, "", F.loc(n))
         sm = [x for x in S.subterms(t) if is_call(x, "get_symbol_map")]
         run.check("R8", "check_cwe|configured-symbols", bool(sm) and any(isinstance(y, tuple) and y and y[0] == "field" and y[2] == "symbols" for y in S.subterms(sm[0])), "the sources are the symbols configured for this check", site)
-        ins = [x for x in S.subterms(t) if is_call(x, ("insert", "entry", "push")) and ("BTreeMap" in x[3] or "HashMap" in x[3] or "Vec" in x[3]) and any(isinstance(y, tuple) and y and y[0] == "elem" for y in S.subterms(x))]
-        ok = bool(ins) and all("BTreeMap" in x[3] and x[1] == "insert" for x in ins)
-        run.check("R8", "check_cwe|dedup-by-source-address-ordered", ok, "warnings must be deduplicated per source address in an ordered map (one warning per source call, deterministic choice)", site)
+        v_, why_, site_ = SP2.dedup_ordered(F, fn)
+        if v_ == "undecided":
+            run.undecided("R8", "check_cwe|dedup-by-source-address-ordered", why_, site)
+        else:
+            run.check("R8", "check_cwe|dedup-by-source-address-ordered", v_ == "holds", "warnings must be deduplicated per source address in an ordered map (one warning per source call, deterministic choice): %s" % why_, site)
         exits = [x for x in T.walk(fn["body"]) if x.get("k") in ("Break", "Return") and x.get("ds") != "ForLoop"]
         run.check("R8", "check_cwe|all-sources-visited", not exits, "the loop over the call edges must not stop early", site)
 
